@@ -700,6 +700,32 @@ func verifCertHolds(a, b, c [5]uint64, bound uint64) bool {
 	return bad == 0
 }
 
+// verifCertConds: the same conditions one by one (top-level equalities are what the solver's
+// word-level preprocessing can use; a single folded Bool hides them).
+func verifCertConds(a, b, c [5]uint64, bound uint64) []bool {
+	conds := make([]bool, 0, 11)
+	var prev uint64
+	for i := 0; i < 5; i++ {
+		conds = append(conds, a[i]+prev == b[i]+c[i]<<51, c[i]+bound <= 2*bound)
+		prev = c[i]
+	}
+	return append(conds, c[4] == 0)
+}
+
+func verifTightConds(f [5]uint64) []bool {
+	conds := make([]bool, 0, 5)
+	for i := range f {
+		conds = append(conds, f[i] <= 1<<51)
+	}
+	return conds
+}
+
+func verifAssumeAll(conds []bool) {
+	for _, c := range conds {
+		verifAssume(c)
+	}
+}
+
 // verifCertWitness computes the carries that make the certificate hold, if any do: the
 // difference of the carry chains of the two carry propagations (if sum(A) == sum(B), both
 // propagate to the same digits d: A[i] + ca[i-1] == d[i] + 2^51*ca[i], likewise for B).
@@ -746,27 +772,33 @@ func verifDigits(r [4]uint64) (d [5]uint64) {
 // by the contracts (assumed of fresh outputs and fresh carries)
 
 // CarryAdd: out tight, eval(out) + k*p == eval(a) + eval(b), k = floor((eval a + eval b)/2^255).
-func verifPostCarryAdd(a, b, out [5]uint64, c [5]uint64) (k uint64, ok bool) {
+func verifPostCarryAdd(a, b, out, c [5]uint64, k uint64) []bool {
 	want := verifColSum(a, b)
-	k = verifNorm51(want)[5]
-	return k, verifTightArr(&out) && verifCertHolds(verifColsKP(out, k), want, c, verifCarryBound)
+	conds := []bool{k == verifNorm51(want)[5]}
+	conds = append(conds, verifTightConds(out)...)
+	return append(conds, verifCertConds(verifColsKP(out, k), want, c, verifCarryBound)...)
 }
 
 // CarryMul by {38,0,0,0,0}: out tight, eval(out) + k*p == 38*eval(h), k = floor(38*eval(h)/2^255).
-func verifPostCarryMul38(h, out [5]uint64, c [5]uint64) (k uint64, ok bool) {
+func verifPostCarryMul38(h, out, c [5]uint64, k uint64) []bool {
 	want := verifColTimes38(h)
-	k = verifNorm51(want)[5]
-	return k, verifTightArr(&out) && verifCertHolds(verifColsKP(out, k), want, c, verifCarryBound)
+	conds := []bool{k == verifNorm51(want)[5]}
+	conds = append(conds, verifTightConds(out)...)
+	return append(conds, verifCertConds(verifColsKP(out, k), want, c, verifCarryBound)...)
+}
+
+// verifGeP: [eval(f) >= p] for tight f (eval(f) < 2p).
+func verifGeP(f [5]uint64) uint64 {
+	nf := verifNorm51(f)
+	allOnes := verifB2U(nf[1] == verifMask51) & verifB2U(nf[2] == verifMask51) & verifB2U(nf[3] == verifMask51) & verifB2U(nf[4] == verifMask51)
+	return nf[5] | allOnes&verifB2U(nf[0] >= verifMask51-18)
 }
 
 // ToBytes: R < p (bit 255 clear), R + k*p == eval(f), k = [eval(f) >= p].
-func verifPostToBytes(f [5]uint64, out [32]uint8, c [5]uint64) (k uint64, ok bool) {
+func verifPostToBytes(f [5]uint64, out [32]uint8, c [5]uint64, k uint64) []bool {
 	r := verifLimbs4(out[:])
-	nf := verifNorm51(f)
-	allOnes := verifB2U(nf[1] == verifMask51) & verifB2U(nf[2] == verifMask51) & verifB2U(nf[3] == verifMask51) & verifB2U(nf[4] == verifMask51)
-	k = nf[5] | allOnes&verifB2U(nf[0] >= verifMask51-18)
-	return k, verifLess4(r, verifFpP()) == 1 && r[3]>>63 == 0 &&
-		verifCertHolds(verifColsKP(verifDigits(r), k), f, c, verifCarryBound)
+	conds := []bool{k == verifGeP(f), verifLess4(r, verifFpP()) == 1, r[3]>>63 == 0}
+	return append(conds, verifCertConds(verifColsKP(verifDigits(r), k), f, c, verifCarryBound)...)
 }
 
 func verifPostFromBytes(in [32]uint8, out [5]uint64) bool {
@@ -802,9 +834,8 @@ func verifCtrCarryAdd(out1 *fiatFpTightFieldElement, arg1 *fiatFpTightFieldEleme
 	}
 	a, b := [5]uint64(*arg1), [5]uint64(*arg2)
 	verifAssert("contract.carryadd.pre_tight", verifTightArr(&a) && verifTightArr(&b))
-	out, c := verifFresh5(), verifFresh5()
-	k, ok := verifPostCarryAdd(a, b, out, c)
-	verifAssume(ok)
+	out, c, k := verifFresh5(), verifFresh5(), verifU64()
+	verifAssumeAll(verifPostCarryAdd(a, b, out, c, k))
 	verifGhostPush(k, c)
 	*out1 = out
 }
@@ -816,9 +847,8 @@ func verifCtrCarryMul(out1 *fiatFpTightFieldElement, arg1 *fiatFpLooseFieldEleme
 	}
 	h, m := [5]uint64(*arg1), [5]uint64(*arg2)
 	verifAssert("contract.carrymul38.pre", verifTightArr(&h) && m == [5]uint64{38, 0, 0, 0, 0})
-	out, c := verifFresh5(), verifFresh5()
-	k, ok := verifPostCarryMul38(h, out, c)
-	verifAssume(ok)
+	out, c, k := verifFresh5(), verifFresh5(), verifU64()
+	verifAssumeAll(verifPostCarryMul38(h, out, c, k))
 	verifGhostPush(k, c)
 	*out1 = out
 }
@@ -832,9 +862,8 @@ func verifCtrToBytes(out1 *[32]uint8, arg1 *fiatFpTightFieldElement) {
 	verifAssert("contract.tobytes.pre_tight", verifTightArr(&f))
 	var out [32]uint8
 	copy(out[:], verifBytes(32))
-	c := verifFresh5()
-	k, ok := verifPostToBytes(f, out, c)
-	verifAssume(ok)
+	c, k := verifFresh5(), verifU64()
+	verifAssumeAll(verifPostToBytes(f, out, c, k))
 	verifGhostPush(k, c)
 	*out1 = out
 }
@@ -880,8 +909,9 @@ func H_ed25519fp_cert_carryadd() {
 	var out fiatFpTightFieldElement
 	fiatFpCarryAdd(&out, &a, &b)
 	k := verifNorm51(verifColSum(a, b))[5]
-	_, ok := verifPostCarryAdd(a, b, out, verifCertWitness(verifColsKP(out, k), verifColSum(a, b)))
-	verifAssert("cert.carryadd", ok)
+	for _, cond := range verifPostCarryAdd(a, b, out, verifCertWitness(verifColsKP(out, k), verifColSum(a, b)), k) {
+		verifAssert("cert.carryadd", cond)
+	}
 	x := a
 	fiatFpCarryAdd(&x, &x, &b) // aliased as in SetBytesWide
 	verifAssert("cert.carryadd.aliased", x == out)
@@ -894,8 +924,9 @@ func H_ed25519fp_cert_carrymul38() {
 	var out fiatFpTightFieldElement
 	fiatFpCarryMul(&out, (*fiatFpLooseFieldElement)(&h), &m)
 	k := verifNorm51(verifColTimes38(h))[5]
-	_, ok := verifPostCarryMul38(h, out, verifCertWitness(verifColsKP(out, k), verifColTimes38(h)))
-	verifAssert("cert.carrymul38", ok)
+	for _, cond := range verifPostCarryMul38(h, out, verifCertWitness(verifColsKP(out, k), verifColTimes38(h)), k) {
+		verifAssert("cert.carrymul38", cond)
+	}
 	x := h
 	fiatFpCarryMul(&x, (*fiatFpLooseFieldElement)(&x), &m)
 	verifAssert("cert.carrymul38.aliased", x == out)
@@ -906,9 +937,10 @@ func H_ed25519fp_cert_tobytes() {
 	verifReach("ed25519fp_cert_tobytes")
 	var out [32]uint8
 	fiatFpToBytes(&out, &f)
-	k0, _ := verifPostToBytes(f, out, [5]uint64{})
-	_, ok := verifPostToBytes(f, out, verifCertWitness(verifColsKP(verifDigits(verifLimbs4(out[:])), k0), f))
-	verifAssert("cert.tobytes", ok)
+	k := verifGeP(f)
+	for _, cond := range verifPostToBytes(f, out, verifCertWitness(verifColsKP(verifDigits(verifLimbs4(out[:])), k), f), k) {
+		verifAssert("cert.tobytes", cond)
+	}
 }
 
 func H_ed25519fp_cert_frombytes_select() {
@@ -959,8 +991,9 @@ func verifWideComposed(data []byte) {
 	s[0] += 19*verifBits(x, 255, 1) + 722*verifBits(x, 511, 1)
 	verifAssert("composed.lt_p", verifLess4(got, verifFpP()) == 1)
 	verifAssert("composed.K_small", kSum <= 64)
-	verifAssert("composed.bytes_plus_Kp_eq_lo_19b255_38hi_722b511",
-		verifCertHolds(verifColsKP(verifDigits(got), kSum), s, cSum, 5*verifCarryBound))
+	for _, cond := range verifCertConds(verifColsKP(verifDigits(got), kSum), s, cSum, 5*verifCarryBound) {
+		verifAssert("composed.bytes_plus_Kp_eq_lo_19b255_38hi_722b511", cond)
+	}
 	same := uint64(0)
 	for i := range data0 {
 		same += verifB2U(data[i] != data0[i])
